@@ -52,6 +52,9 @@ func (ck *Checker) replayAll(states []*instState) {
 		for _, k := range st.violOrder {
 			byPkg[pkg] = append(byPkg[pkg], replayReq{st, st.viols[k]})
 		}
+		for _, w := range st.wits {
+			byPkg[pkg] = append(byPkg[pkg], replayReq{st, w})
+		}
 	}
 	if len(byPkg) == 0 {
 		return
@@ -161,6 +164,9 @@ func (ck *Checker) replayPkg(scratch, pkgKey string, reqs []replayReq) {
 			dir := filepath.Join("/verif/replays", rq.st.in.Property)
 			os.MkdirAll(dir, 0o755)
 			path := filepath.Join(dir, fmt.Sprintf("%s-%d.json", sanitize(rq.st.in.Name), i))
+			if v.Kind == "witness" {
+				path = filepath.Join(dir, fmt.Sprintf("witness-%s-%d.json", sanitize(rq.st.in.Name), i))
+			}
 			os.WriteFile(path, b, 0o644)
 			res, msg := ck.runReplay(bin, filepath.Join(ck.repo, pkg), path, rq)
 			return path, res, msg
@@ -233,6 +239,12 @@ func (ck *Checker) runReplay(bin, dir, file string, rq replayReq) (string, strin
 	var alloc int64
 	fmt.Sscan(kv["alloc"], &alloc)
 	switch kind {
+	case "witness":
+		// a path the symbolic run completed without a violation: the native run must complete the same way
+		if kv["result"] == "pass" {
+			return "confirmed", line
+		}
+		return "unconfirmed", line
 	case "assert":
 		label := strings.TrimPrefix(rq.v.Key, "assert|")
 		for _, l := range strings.Split(kv["label"], ",") {
